@@ -368,6 +368,38 @@ def multiline_comment_then_comment(src):
     return False
 
 
+# rules that insert or remove an item of a comma-separated list, on lists that span lines with commas at line
+# starts and at line ends, comments next to commas
+LIST_EDITS = [
+    ("remove_method_call", "obj:method(M1\n , M2\n , M3)\nM4()\n"),
+    ("remove_method_call", "obj:method(M1,\n  M2,\n  M3)\nM4()\n"),
+    ("remove_method_call", "obj:method(M1 -- c\n , M2 --[[d]]\n ,M3)\nM4()\n"),
+    ("remove_method_call", "obj:method(\n  M1\n , M2\n)\nM4()\n"),
+    ("remove_method_call", "obj:method()\nM4(obj:m(M1\n  , M2),\n M3)\n"),
+    ("remove_method_call", "local r = obj:method(M1\n\n , -- c\n M2, M3\n , M5)\nM4(r)\n"),
+    ("remove_unused_variable", "local a\n , unused\n , c = M1\n , M2\n , M3\nM4(a, c)\n"),
+    ("remove_unused_variable", "local a,\n unused,\n c = M1,\n M2,\n M3\nM4(a, c)\n"),
+    ("remove_unused_variable", "local unused\n , b = M1\n , M2\nM4(b)\n"),
+    ("remove_unused_variable", "local a\n , unused = M1\n , M2()\nM4(a)\n"),
+    ("remove_unused_variable", "local a -- c\n , unused -- d\n = M1 -- e\n , M2\nM4(a)\n"),
+    ("remove_nil_declaration", "local a\n , b\n = M1\n , nil\nM4(a, b)\n"),
+    ("remove_nil_declaration", "local a,\n b =\n nil,\n M2\nM4(a, b)\n"),
+    ("remove_nil_declaration", "local a\n , b\n , c = nil\n , M2\n , nil\nM4(a, b, c)\n"),
+    ("remove_method_definition", "function t:m(a\n , b\n)\n return M1\nend\nM4()\n"),
+    ("remove_method_definition", "function t:m(a,\n b)\n return M1\nend\nM4()\n"),
+    ("remove_method_definition", "function t:m()\n return M1\nend\nM4()\n"),
+    ("remove_function_call_parens", "f(\n 'M1'\n)\ng({\n M2\n})\nM4()\n"),
+    ("remove_types", "local function f<T\n , U>(a: T\n , b: U\n): (T\n , U)\n return M1\nend\nM4()\n"),
+    ("convert_local_function_to_assign", "local function f(a\n , b)\n return M1\nend\nM4()\n"),
+    ("convert_function_to_assignment", "function f(a\n , b,\n c)\n return M1\nend\nM4()\n"),
+    ("remove_assertions", "assert(M1\n , M2)\nM4()\n"),
+    ("remove_debug_profiling", "debug.profilebegin(M1\n , M2)\nM4()\n"),
+    ("remove_interpolated_string", "local s = `a{M1}b\\\nc{M2\n}d`\nM4(s)\n"),
+    ("remove_continue", "for i = M1\n , M2\n , M3 do\n continue\nend\nM4()\n"),
+    ("remove_compound_assignment", "t[M1\n , nil and M2] += M3\nM4()\n"),
+]
+
+
 WITNESS_JOBS = [
     ({"rules": ["remove_spaces", "remove_method_call"]}, "obj -- c\n:m(M1)\nM2()\n"),
     ({"rules": ["remove_empty_do"]}, "--[==[\n]==]do\nend--[=[\n]=] local x = M1\nM2()\n"),
@@ -404,6 +436,28 @@ MODULE_ENDINGS = [
     ("multi-line-last-token", "\nreturn %s .. [[\nx\ny]]"),
     ("multi-line-last-token-newline", "\nreturn %s .. [[\nx\ny]]\n"),
 ]
+# a module must end with a return statement (the bundler rejects anything else), so the last construct is always
+# the returned expression: every kind of expression that spans lines, with and without a final line break
+_ML = [
+    ("tuple-call", "return setmetatable({\n  a = %s,\n}, {\n  __index = 1,\n})"),
+    ("table-call", "return f{\n  %s,\n}"),
+    ("string-call", "return f(%s)[[\nx\n]]"),
+    ("method-call", "return obj:m(\n  %s\n)"),
+    ("method-call-table", "return obj:m{\n  %s\n}"),
+    ("table", "return {\n  %s,\n  [1] = 2;\n}"),
+    ("function-expr", "return function()\n  return %s\nend"),
+    ("paren", "return (\n  %s\n)"),
+    ("binary", "return %s ..\n  'x'"),
+    ("index", "return t[\n %s\n]"),
+    ("nested-call", "return f(g(\n %s\n))"),
+    ("if-expr", "return if %s then\n 1\nelse\n 2"),
+    ("interpolated", "return `a{\n %s\n}b`"),
+    ("type-cast", "return %s ::\n  any"),
+    ("call-then-long-comment", "return f(\n %s\n) --[[\nc\n]]"),
+]
+MULTILINE_ENDINGS = [(n, "\n" + t) for n, t in _ML] + [(n + "+newline", "\n" + t + "\n") for n, t in _ML]
+MODULE_ENDINGS += MULTILINE_ENDINGS
+
 KEY_BUNDLE_MULTILINE = "bundle-module-ends-in-multi-line-token:return_[[<LF>x<LF>y]]"
 
 BUNDLE_CONFIGS = [
@@ -567,6 +621,11 @@ def run(ctx):
             if quick and pi >= 2 and (si + pi) % 2:
                 continue
             jobs.append(("targeted: removed statement, comments lines apart", {"rules": rules}, s, None))
+    for rule, src in LIST_EDITS:
+        kind = "targeted: rule inserting / removing an item of a list that spans lines"
+        jobs.append((kind, {"rules": [rule]}, src, None))
+        jobs.append((kind, {"rules": ["remove_spaces", rule]}, src, None))
+        jobs.append((kind, {"rules": ["remove_spaces", "remove_comments", rule]}, src, None))
     for ri, (label, rule, after, first) in enumerate(receiver_sources()):
         kind = "targeted: statement kind receiving the comments of a removed statement"
         jobs.append((kind, {"rules": [rule]}, after, None))
@@ -730,6 +789,11 @@ def run_bundles(ctx, rng, quick):
     for n, endings in fixed:
         cases.append(bundle_case(rng, 0, n, endings, simple=True))
         cases.append(bundle_case(rng, 0, n, endings, simple=False))
+    for k, (name, _) in enumerate(MULTILINE_ENDINGS):
+        # a module ending in a multi-line construct, followed by a module with code on its first lines
+        cases.append(bundle_case(rng, 0, 2, [name, "newline"], simple=True))
+        if k % 3 == 0 or not quick:
+            cases.append(bundle_case(rng, 0, 3, ["no-newline", name, "comment-line"], simple=(k % 2 == 0)))
     for i in range(14 if quick else 120):
         cases.append(bundle_case(rng, i, 2 + i % 3))
     jobs = []
@@ -823,6 +887,8 @@ def has_constant_elseif(src, keyword=b"elseif"):
     i = 0
     while i < len(toks):
         if toks[i].text == keyword and toks[i].kind == "name":
+            if i + 1 < len(toks) and toks[i + 1].text in (b"function", b"{"):
+                return True      # a function or table value is a constant (true) condition as well
             j = i + 1
             constant = True
             depth = 0
